@@ -42,6 +42,7 @@ func c10Offenders() []c10Offender {
 		{Name: "link-absolute-outside", Nodes: []gen.NodeSpec{l("abs", "/c10/outside-file")}, Bad: true},
 		{Name: "link-absolute-etc", Nodes: []gen.NodeSpec{l("abs", "/etc/passwd")}, Bad: true},
 		{Name: "link-to-manifest", Nodes: []gen.NodeSpec{l("m", "../terraform-sources.json")}, Bad: true},
+		{Name: "link-to-file-of-already-installed-sibling-package", Nodes: []gen.NodeSpec{l("peer.tf", "../{SIBLING}/main.tf")}, Bad: true},
 		{Name: "link-dangling", Nodes: []gen.NodeSpec{l("mod/dangling", "no-such-file")}, Bad: true},
 		{Name: "link-chain-ending-outside", Nodes: []gen.NodeSpec{l("c1", "c2"), l("c2", "../outside-file")}, Bad: true},
 		{Name: "link-chain-inside", Nodes: []gen.NodeSpec{l("c1", "c2"), l("c2", "main.tf")}},
@@ -118,6 +119,7 @@ func c10Expect(p gen.RemotePkg, scratch string) (bad bool, why string) {
 	ex := make([]gen.NodeSpec, len(p.Extras))
 	for i, n := range p.Extras {
 		n.Target = strings.ReplaceAll(n.Target, "{SELF}", "SELFDIR")
+		n.Target = strings.ReplaceAll(n.Target, "{SIBLING}", "some-sibling-package")
 		ex[i] = n
 	}
 	if err := gen.Materialise(root, gen.TreeSpec{Nodes: ex}); err != nil {
